@@ -28,7 +28,8 @@ func init() {
 			"R6: a tenure issues at most one Delete (a by-key delete repeated after a lost reply removes a successor's record). L2: the lease renewal does not run under the context of the acquisition call (that context normally ends right after the call returned; every renewal would fail and the record lapse under the holder). " +
 			"L3: every acquisition arms its first renewal with this Create's version and a period of lease/k, k>=2 (a renewal due at the end of the lease finds the record expired, the chain ends and a second caller creates the record under the live holder). " +
 			"L4: what runs on the renewal timer's goroutine never cancels a timer it has read from the Locker's timer slot - the slot is per Locker object, a renewal of a finished tenure that is still in flight would cancel the live timer of the next tenure, whose record then lapses under its holder; it may cancel only a timer it armed itself. " +
-			"S3: every record the in-memory storage writes gets a fresh ulidutils.NewID() version drawn under the generator's lock (the renewal CAS tells tenures apart by the version alone; a counter that restarts with the record lets a stale renewal of the previous tenure hit the next one). T1-T8: the timer package's index/cancel rules of C12 (a Cancel issued through a stale or recycled future object removes another lock's renewal timer, whose lease then runs out under its holder).",
+			"S3: every record the in-memory storage writes gets a fresh ulidutils.NewID() version drawn under the generator's lock (the renewal CAS tells tenures apart by the version alone; a counter that restarts with the record lets a stale renewal of the previous tenure hit the next one). T1-T8: the timer package's index/cancel rules of C12 (a Cancel issued through a stale or recycled future object removes another lock's renewal timer, whose lease then runs out under its holder). " +
+			"L5: a run of the lease renewal returns without having attempted the compare-and-set or armed a later attempt only on a path that has found its tenure over - the held flag read and clear, a tenure generation that differs, or a word of the Locker that Unlock sets (before the token goes back) and EVERY way of taking the local token resets before it can succeed (sibling agreement of the token helpers); a word one sibling forgets to reset is inherited by the next tenure, whose renewal steps aside at once: the record lapses under the holder and a second caller acquires.",
 		NotDecided: "exclusion itself over interleavings and fault placements (needs C02 for the storage and the lease assumption).",
 	})
 	register(&Check{
@@ -41,7 +42,8 @@ func init() {
 			"R4: the token helpers return nil only on the 'still open' edge of a shutdown test made after taking the token. R5: the local wait has a ctx.Done() case returning ctx.Err(); Shutdown closes the done channel. " +
 			"R6: the lease renewal writes only by CasByVersion (it never re-creates a record: ErrNotExist also means the holder unlocked). R7: an attempt that gave the token back reports failure. " +
 			"W1/W2: in the in-memory store every mutation notifies the key's waiters and the waiter's check and registration are one critical section (no lost wake-up at the storage level). R8: on every path from the return of the storage wait to the next Create the shutdown channel is tested and found open (paths enumerated with phi operands resolved per path). W7: a waiter registers again on its entry only after the previous registration was withdrawn or consumed by a notification. R9: an attempt resets the held flag before it puts the local token back (in the other order a goroutine sharing the Locker takes the token while the flag still reads held, fails on the flag and the token is lost). " +
-			"R10: on no path from the success outcome of Storage.Create does an attempt reach a failing exit without deleting the record it has created (a refused attempt that leaves its record behind keeps every other Locker out for a lease although nobody holds the lock).",
+			"R10: on no path from the success outcome of Storage.Create does an attempt reach a failing exit without deleting the record it has created (a refused attempt that leaves its record behind keeps every other Locker out for a lease although nobody holds the lock). " +
+			"R10 also: a clean-up Delete on such a path does not count when it runs under a context the path has just found ended (ctx.Err() != nil; a storage that honours the context refuses it). R11: between the return of the local wait (a select over the token and ctx.Done(): with an ended context it may still take the token) and every success exit the caller's context is looked at again - a ctx.Err() found nil, or a Storage.Create under that context while the in-memory Create is shown to refuse an ended context. R12: a token helper that fails after it received the token puts it back, except on paths that found the shutdown channel closed (assigned only at construction; tested directly or through a predicate whose true implies closed) - any other refusal state can be called off and the Locker would have lost its token for good.",
 		NotDecided: "absence of lost wake-ups over all schedules as such; fairness.",
 	})
 	register(&Check{
@@ -56,7 +58,8 @@ func init() {
 			"L11: what runs on the renewal timer's goroutine never cancels a timer it has read from the Locker's timer slot (per Locker object, not per tenure: an attempt of a finished tenure that is still in flight would cancel the live timer of the next tenure - it has to change nothing); it may cancel only a timer it armed itself. " +
 			"L12: a storage wait that runs under a context the library derived itself (own deadline or cancellation) never decides the attempt: behind it the attempt fails only after re-reading the caller's context and finding it ended, after seeing the shutdown, or on a later Create - otherwise a waiter whose own context is alive gives up when the dead holder's record is about to lapse instead of acquiring. " +
 			"L13: a run of the renewal (the scheduled function and the routine) returns without having attempted the compare-and-set or armed a later attempt only on a path that has found the tenure over (the held flag read and clear) - not because the provider was shut down: Shutdown() does not unlock, the holder's record would lapse under it. " +
-			"L14: the version a renewal compare-and-sets and re-arms with travels with the attempt (parameter / captured variable of the scheduled function); it is never read from a field of the Locker object, which outlives the tenure and is shared with a late renewal of the previous tenure (the renewal routine is also resolved when the scheduled function is a function value bound once and kept in a field).",
+			"L14: the version a renewal compare-and-sets and re-arms with travels with the attempt (parameter / captured variable of the scheduled function); it is never read from a field of the Locker object, which outlives the tenure and is shared with a late renewal of the previous tenure (the renewal routine is also resolved when the scheduled function is a function value bound once and kept in a field). " +
+			"L2/L3 also: when the lease can be changed after construction (a store outside the constructor), the period of the armed renewal and the ExpiresAt of the record write it follows derive from ONE read of the lease (the lease is a time.Duration field, or an integer word read atomically / through an accessor). L13 also accepts a word that Unlock sets and every way of taking the local token resets (see C01.L5).",
 		NotDecided: "every timing statement ('within about one lease period'), clock behaviour.",
 	})
 }
@@ -93,8 +96,8 @@ func resolveLockRoles(c *Ctx) *lockRoles {
 	r.provider = impls[0]
 	c.Role("lock.provider", r.provider.Obj().Name(), r.provider.Obj().Pos())
 	r.storageF = c.oneField("provider.storage", r.provider, func(f *types.Var) bool { return namedOf(f.Type()) == r.storageIface })
-	r.doneF = c.oneField("provider.done", r.provider, func(f *types.Var) bool { _, ok := f.Type().Underlying().(*types.Chan); return ok })
-	r.leaseF = c.oneField("provider.lease", r.provider, func(f *types.Var) bool { return ir.IsNamed(f.Type(), "time", "Duration") })
+	r.doneF = c.providerDoneVG(r) // the provider's channel field; among several, the one Shutdown closes (v_lock_g4.go)
+	r.leaseF = c.providerLeaseVG(r) // the time.Duration field, or the integer word read as the lease (v_lock_g5.go)
 	r.newLocker = c.RequireFn(c.P.MethodOf(r.provider, "NewLocker"), "provider.NewLocker")
 	r.shutdown = c.RequireFn(c.P.MethodOf(r.provider, "Shutdown"), "provider.Shutdown")
 	for _, ret := range ir.Returns(r.newLocker) {
@@ -332,7 +335,7 @@ func (r *lockRoles) openFact(f ir.Fact) bool {
 		// index != doneIdx, or index == some other case / default (-1)
 		return (cm.Op == token.NEQ && k == doneIdx) || (cm.Op == token.EQL && k != doneIdx)
 	}
-	return false
+	return r.openByPredicateVG(f) // a predicate of the package whose answer implies "open" (v_lock_g4.go)
 }
 
 // storageCall returns the interface call when in invokes method `name` ("" = any) of kvs.Storage.
@@ -707,6 +710,9 @@ func runC01(c *Ctx) {
 	c.armOnAcquire(r, "C01.L3", false)
 	c.R.Floor("C01.L3", 2)
 	c.renewalCancelsOwnTimer(r, "C01.L4")
+	// L5: a renewal run that steps aside without a CAS attempt is justified only by the end of its tenure (C05.L13): a
+	// tenure that is never renewed lapses under its holder and a second caller creates the record
+	c.renewalAttemptsUnlessTenureOver(r, "C01.L5")
 	// L1: a record written with a stale or missing lease lapses under its holder and a second caller acquires
 	c.leaseOnWrite(r, "C01.L1")
 	// S: the storage the lock races on is atomic per operation and decides Create on the absent edge (in-memory backend)
@@ -995,6 +1001,14 @@ func runC04(c *Ctx) {
 					selTests = append(selTests, selTest{bo, false})
 				}
 			}
+			if pc, ok := in.(*ssa.Call); ok && !isShutdownTest(pc) {
+				// a predicate of the package whose answer implies "open" (v_lock_g4.go)
+				if r.openByPredicateVG(ir.Fact{Cond: pc, True: false}) {
+					selTests = append(selTests, selTest{pc, false})
+				} else if r.openByPredicateVG(ir.Fact{Cond: pc, True: true}) {
+					selTests = append(selTests, selTest{pc, true})
+				}
+			}
 		})
 		ir.Instrs(fn, func(in ssa.Instruction) {
 			w := r.storageCall(in, "WaitForVersionChange")
@@ -1035,6 +1049,8 @@ func runC04(c *Ctx) {
 	c.inmemNotifyAfterMutate(im, "C04.W1")
 	c.inmemWaitRules(im, "C04.W2", "C04.W3", "", "", "C04.W6")
 	c.inmemRegistrationBalance(im, "C04.W7")
+	c.contextObservedAfterLocalWait(r, im, "C04.R11")
+	c.tokenKeptOnlyAfterShutdown(r, "C04.R12")
 }
 
 // acquiringFns returns the locker functions that contain the Create retry logic.
@@ -1184,6 +1200,7 @@ func runC05(c *Ctx) {
 	c.waitEndsForCallerReasons(r, "C05.L12")
 	c.renewalAttemptsUnlessTenureOver(r, "C05.L13")
 	c.renewalVersionPerTenure(r, "C05.L14")
+	c.periodFromWrittenLease(r, "C05.L2", "C05.L3")
 
 	// L9: a renewal that is in flight while the holder unlocks arms nothing. Unlock can cancel only the timer it finds in
 	// the slot; a renewal whose timer has already fired arms its successor after that. The renewal therefore has to look
@@ -1628,13 +1645,13 @@ func (r *lockRoles) periodBelowLease(d ssa.Value) bool {
 		return false
 	}
 	k, isC := ir.ConstInt(bo.Y)
-	return isC && k >= 2 && ir.LoadedField(bo.X) == r.leaseF
+	return isC && k >= 2 && r.leaseReadVG(bo.X) != nil
 }
 
 // leaseOnWrite is C05.L1 / C01.L1: every lock record is written with ExpiresAt = now + lease, the clock read at
 // the time of the write.
 func (c *Ctx) leaseOnWrite(r *lockRoles, rule string) {
-	leaseLoad := func(v ssa.Value) bool { return ir.LoadedField(v) == r.leaseF }
+	leaseLoad := func(v ssa.Value) bool { return r.leaseReadVG(v) != nil }
 	n := 0
 	for _, fn := range r.all {
 		ir.Instrs(fn, func(in ssa.Instruction) {
